@@ -654,4 +654,130 @@ theorem isPow2Template_iff {w : Nat} (sg : Bool) (i : BitVec w) :
         have : ((i.toNat : Nat) : Int) = ((2 ^ k : Nat) : Int) := by rw [hk]; simp [Int.natCast_pow]
         exact_mod_cast this⟩
 
+
+/-! ### rol / ror generic -/
+
+/-- the two shift counts computed by `rol*_generic` / `ror*_generic` in `int` arithmetic:
+    `i & (w-1)` and `(w - (i & (w-1))) & (w-1)` -/
+theorem rot_counts {w : Nat} (m : Nat) (hw : w = 2 ^ m) (hm : m < 32) (i : BitVec 32) :
+    let msk : BitVec 32 := BitVec.ofNat 32 (w - 1)
+    (i &&& msk).toNat = i.toNat % w ∧
+    ((BitVec.ofNat 32 w - (i &&& msk)) &&& msk).toNat = (w - i.toNat % w) % w := by
+  intro msk
+  have hwlt : w < 2 ^ 32 := by subst hw; exact Nat.pow_lt_pow_right (by omega) hm
+  have hwpos : 0 < w := by subst hw; exact Nat.pow_pos (by omega)
+  have hmsk : msk.toNat = 2 ^ m - 1 := by
+    simp only [msk, BitVec.toNat_ofNat, hw]; exact Nat.mod_eq_of_lt (by omega)
+  have h1 : (i &&& msk).toNat = i.toNat % w := by
+    rw [BitVec.toNat_and, hmsk, Nat.and_two_pow_sub_one_eq_mod, hw]
+  refine ⟨h1, ?_⟩
+  have hs : i.toNat % w < w := Nat.mod_lt _ hwpos
+  rw [BitVec.toNat_and, hmsk, Nat.and_two_pow_sub_one_eq_mod, BitVec.toNat_sub, h1,
+    BitVec.toNat_ofNat, Nat.mod_eq_of_lt hwlt, ← hw]
+  have : 2 ^ 32 - i.toNat % w + w = 2 ^ 32 + (w - i.toNat % w) := by omega
+  rw [this, Nat.add_mod_left, Nat.mod_eq_of_lt (a := w - i.toNat % w) (b := 2 ^ 32) (by omega)]
+
+/-- **rol32_generic / rol64_generic** equal the rotate-left instruction (count taken modulo the
+    width) for every value and every shift count, negative ones included -/
+theorem rolGeneric_eq {w : Nat} (m : Nat) (hw : w = 2 ^ m) (hm : m < 32) (x : BitVec w) (i : BitVec 32) :
+    rolGeneric x i = specRol x i := by
+  obtain ⟨h1, h2⟩ := rot_counts m hw hm i
+  unfold rolGeneric specRol
+  simp only [h1, h2, BitVec.rotateLeft_def, Nat.mod_mod]
+  have hwpos : 0 < w := by subst hw; exact Nat.pow_pos (by omega)
+  by_cases h0 : i.toNat % w = 0
+  · simp [h0, BitVec.ushiftRight_eq_zero]
+  · have hs : i.toNat % w < w := Nat.mod_lt _ hwpos
+    rw [Nat.mod_eq_of_lt (by omega : w - i.toNat % w < w)]
+
+theorem rorGeneric_eq {w : Nat} (m : Nat) (hw : w = 2 ^ m) (hm : m < 32) (x : BitVec w) (i : BitVec 32) :
+    rorGeneric x i = specRor x i := by
+  obtain ⟨h1, h2⟩ := rot_counts m hw hm i
+  unfold rorGeneric specRor
+  simp only [h1, h2, BitVec.rotateRight_def, Nat.mod_mod]
+  have hwpos : 0 < w := by subst hw; exact Nat.pow_pos (by omega)
+  by_cases h0 : i.toNat % w = 0
+  · simp [h0, BitVec.shiftLeft_eq_zero]
+  · have hs : i.toNat % w < w := Nat.mod_lt _ hwpos
+    rw [Nat.mod_eq_of_lt (by omega : w - i.toNat % w < w)]
+
+/-- what a rotation is: bit `j` of `rol(x, i)` is bit `(j − i) mod w` of `x` -/
+theorem specRol_getLsbD {w : Nat} (x : BitVec w) (i : BitVec 32) (j : Nat) (hj : j < w) :
+    (specRol x i).getLsbD j = x.getLsbD ((j + (w - i.toNat % w)) % w) := by
+  unfold specRol
+  have e : i.toNat % w % w = i.toNat % w := Nat.mod_mod _ _
+  rw [BitVec.getLsbD_rotateLeft, e]
+  have hs : i.toNat % w < w := Nat.mod_lt _ (by omega)
+  by_cases h : j < i.toNat % w
+  · simp only [h, decide_true, cond_true]
+    congr 1
+    rw [Nat.mod_eq_of_lt (a := j + (w - i.toNat % w)) (b := w) (by omega)]; omega
+  · simp only [h, decide_false, cond_false, hj, decide_true, Bool.true_and]
+    congr 1
+    have : j + (w - i.toNat % w) = w + (j - i.toNat % w) := by omega
+    rw [this, Nat.add_mod_left, Nat.mod_eq_of_lt (a := j - i.toNat % w) (b := w) (by omega)]
+
+
+/-! ### bswap generic  (the argument is symbolic; only the bit *positions* are enumerated) -/
+
+theorem specBswap16 (x : BitVec 16) :
+    specBswap x = (((x >>> 0) &&& 0xFF#16) <<< 8) ||| (((x >>> 8) &&& 0xFF#16) <<< 0) := by
+  simp [specBswap, List.range, List.range.loop]
+
+theorem specBswap32 (x : BitVec 32) :
+    specBswap x = (((x >>> 0) &&& 0xFF#32) <<< 24) ||| (((x >>> 8) &&& 0xFF#32) <<< 16) |||
+      (((x >>> 16) &&& 0xFF#32) <<< 8) ||| (((x >>> 24) &&& 0xFF#32) <<< 0) := by
+  simp [specBswap, List.range, List.range.loop]
+
+theorem specBswap64 (x : BitVec 64) :
+    specBswap x = (((x >>> 0) &&& 0xFF#64) <<< 56) ||| (((x >>> 8) &&& 0xFF#64) <<< 48) |||
+      (((x >>> 16) &&& 0xFF#64) <<< 40) ||| (((x >>> 24) &&& 0xFF#64) <<< 32) |||
+      (((x >>> 32) &&& 0xFF#64) <<< 24) ||| (((x >>> 40) &&& 0xFF#64) <<< 16) |||
+      (((x >>> 48) &&& 0xFF#64) <<< 8) ||| (((x >>> 56) &&& 0xFF#64) <<< 0) := by
+  simp [specBswap, List.range, List.range.loop]
+
+/-- **bswap16_generic** reverses the bytes, for every value -/
+theorem bswap16Generic_eq (x : BitVec 16) : bswap16Generic x = specBswap x := by
+  rw [specBswap16]
+  unfold bswap16Generic
+  apply BitVec.eq_of_getLsbD_eq
+  intro i hi
+  simp only [BitVec.getLsbD_or, BitVec.getLsbD_and, BitVec.getLsbD_ushiftRight, BitVec.getLsbD_shiftLeft]
+  iterate 16 (rcases i with _ | i; · simp (decide := true))
+  omega
+
+/-- **bswap32_generic** reverses the bytes, for every value -/
+theorem bswap32Generic_eq (x : BitVec 32) : bswap32Generic x = specBswap x := by
+  rw [specBswap32]
+  unfold bswap32Generic
+  apply BitVec.eq_of_getLsbD_eq
+  intro i hi
+  simp only [BitVec.getLsbD_or, BitVec.getLsbD_and, BitVec.getLsbD_ushiftRight, BitVec.getLsbD_shiftLeft]
+  iterate 32 (rcases i with _ | i; · simp (decide := true))
+  omega
+
+/-- **bswap64_generic** reverses the bytes, for every value -/
+theorem bswap64Generic_eq (x : BitVec 64) : bswap64Generic x = specBswap x := by
+  rw [specBswap64]
+  unfold bswap64Generic
+  apply BitVec.eq_of_getLsbD_eq
+  intro i hi
+  simp only [BitVec.getLsbD_or, BitVec.getLsbD_and, BitVec.getLsbD_ushiftRight, BitVec.getLsbD_shiftLeft]
+  iterate 64 (rcases i with _ | i; · simp (decide := true))
+  omega
+
+/-- what byte reversal means: byte `j` of the result is byte `n-1-j` of the argument
+    (stated for the specification all three generics are proved equal to) -/
+theorem specBswap32_bytes (x : BitVec 32) (j : Nat) (hj : j < 4) :
+    (specBswap x >>> (8 * j)) &&& 0xFF#32 = (x >>> (8 * (3 - j))) &&& 0xFF#32 := by
+  rw [specBswap32]
+  apply BitVec.eq_of_getLsbD_eq
+  intro i hi
+  simp only [BitVec.getLsbD_or, BitVec.getLsbD_and, BitVec.getLsbD_ushiftRight, BitVec.getLsbD_shiftLeft]
+  rcases j with _ | _ | _ | _ | j
+  all_goals first
+    | omega
+    | (iterate 32 (rcases i with _ | i; · simp (decide := true))
+       omega)
+
 end TlxVerif.C20
